@@ -18,3 +18,22 @@ Proof. intros c m s. unfold supported_mnemonic_try_from. destruct m; reflexivity
 (* SupportedMnemonic::try_from is the identity on the 65 dispatched mnemonics *)
 Theorem supported_identity : forall c m s m', fst (supported_mnemonic_try_from c m s) = Ok m' -> m' = m.
 Proof. intros c m s m'. unfold supported_mnemonic_try_from. destruct m; cbn; intros H; inversion H; reflexivity. Qed.
+
+(* the OS-interface instructions succeed exactly when hooks are registered for their own
+   mnemonic, and change nothing *)
+From AxG Require Import I_syscall I_int I_int1 I_int3.
+Definition os_form (mn : mnemonic) (F : MM unit) : Prop :=
+  forall s, F s = ((if hooked s mn then Ok tt else Err EOther), s).
+
+Lemma os_syscall c i : i_code i = C_Syscall -> os_form M_Syscall (instr_syscall c i).
+Proof. intros Ec s. unfold instr_syscall, debug_assert_that, assert_that. rewrite Ec. cbn [code_eqb].
+  destruct (dbg c); cbn; unfold has_mnemonic_hooks, ret, fail; cbn; destruct (hooked s M_Syscall); reflexivity. Qed.
+Lemma os_int c i : i_code i = C_Int_imm8 -> os_form M_Int (instr_int_imm8 c i).
+Proof. intros Ec s. unfold instr_int_imm8, debug_assert_that, assert_that. rewrite Ec. cbn [code_eqb].
+  destruct (dbg c); cbn; unfold has_mnemonic_hooks, ret, fail; cbn; destruct (hooked s M_Int); reflexivity. Qed.
+Lemma os_int1 c i : i_code i = C_Int1 -> os_form M_Int1 (instr_int1 c i).
+Proof. intros Ec s. unfold instr_int1, debug_assert_that, assert_that. rewrite Ec. cbn [code_eqb].
+  destruct (dbg c); cbn; unfold has_mnemonic_hooks, ret, fail; cbn; destruct (hooked s M_Int1); reflexivity. Qed.
+Lemma os_int3 c i : i_code i = C_Int3 -> os_form M_Int3 (instr_int3 c i).
+Proof. intros Ec s. unfold instr_int3, debug_assert_that, assert_that. rewrite Ec. cbn [code_eqb].
+  destruct (dbg c); cbn; unfold has_mnemonic_hooks, ret, fail; cbn; destruct (hooked s M_Int3); reflexivity. Qed.
